@@ -139,10 +139,23 @@ func makeRunC14(cfgs []Cfg) func(cfg Cfg, keys []string, ops []Op, res *TaskResu
 		var firstCfg Cfg
 		groups := map[string]*c14Run{}
 		groupCfg := map[string]Cfg{}
+		tear := hasTear(ops)
+		byFS, byFSCfg := map[int64]*c14Run{}, map[int64]Cfg{}
 		for _, cfg := range cfgs {
 			r := c14Exec(cfg, keys, ops, res)
 			res.Evals++
-			if first == nil {
+			if tear {
+				// reference = the first configuration with the same DataFileSize
+				if ref, ok := byFS[cfg.FileSize]; !ok {
+					rr := r
+					byFS[cfg.FileSize], byFSCfg[cfg.FileSize] = &rr, cfg
+				} else if r.reduced != ref.reduced {
+					return viol("C14", "results-differ", "results-differ:torn-tail:"+diffDim(byFSCfg[cfg.FileSize], cfg), fmt.Sprintf("results differ between %s and %s %s", byFSCfg[cfg.FileSize], cfg, firstDiff(ref.reduced, r.reduced)))
+				}
+				if first == nil {
+					first, firstCfg = &r, cfg
+				}
+			} else if first == nil {
 				first, firstCfg = &r, cfg
 			} else if r.reduced != first.reduced {
 				return viol("C14", "results-differ", "results-differ:"+diffDim(firstCfg, cfg), fmt.Sprintf("results differ between %s and %s %s", firstCfg, cfg, firstDiff(first.reduced, r.reduced)))
@@ -170,6 +183,32 @@ func makeRunC14(cfgs []Cfg) func(cfg Cfg, keys []string, ops []Op, res *TaskResu
 		}
 		return nil
 	}
+}
+
+// torn-tail level: a restart may find the newest file short of its last bytes (the recovery truncates the torn
+// record away and later writes follow the cut). What is lost depends on the file layout, so these sequences are
+// compared only between configurations with the same DataFileSize (back-end, index type and shard count vary).
+func c14TearAlphabet(c Cfg) []Op {
+	return []Op{
+		{K: "put", Key: "a", VC: "S"},
+		{K: "put", Key: "b", VC: "S"},
+		{K: "del", Key: "a"},
+		{K: "restarttear", Arg: 1},
+		{K: "restarttear", Arg: 12, Dev: true},
+		{K: "put", Key: "b", VC: "F", Arg: 210, Dev: true},
+		{K: "batch", Sub: []Op{{K: "put", Key: "a", VC: "S"}, {K: "put", Key: "b", VC: "S"}}, Dev: true},
+		{K: "sync", Dev: true},
+		{K: "merge", Dev: true},
+	}
+}
+
+func hasTear(ops []Op) bool {
+	for _, op := range ops {
+		if op.K == "restarttear" {
+			return true
+		}
+	}
+	return false
 }
 
 func diffDim(a, b Cfg) string {
@@ -480,6 +519,11 @@ func init() {
 			mmlk.IO = 1
 			lk = append(lk, mmlk)
 			tasks = append(tasks, seqTasks("C14", []seqLevel{{Name: "long-keys-lockstep-d4", Cfgs: []Cfg{lk[0]}, Keys: c18LongKeys, Alpha: longKeyMergeAlphabet, Depth: 4, Dev: 2, Split: 2, Run: makeRunC14(lk)}})...)
+			td := 4
+			if tier == "thorough" {
+				td = 5
+			}
+			tasks = append(tasks, seqTasks("C14", []seqLevel{{Name: fmt.Sprintf("torn-tail-lockstep-d%d", td), Cfgs: []Cfg{defaultCfg}, Keys: keysAB, Alpha: c14TearAlphabet, Depth: td, Dev: 2, Split: 2, Run: makeRunC14(cfgs)}})...)
 			return append(append(tasks, c14IterTasks(tier)...), c14OddShardTasks()...)
 		},
 		Bounds: func(tier string) map[string]any {
